@@ -164,7 +164,13 @@ func ZZRuleCase() {
 	for _, q := range qs {
 		all = vn.And(all, q.accept)
 	}
-	withR := vn.And(zzHead(P, types.ZZBra1, types.ZZBra2), cover)
+	// &R: the name under which the provider continues must be fresh w.r.t. Γ (it becomes the
+	// provider in the whole branch; F21 was the missing check)
+	freshR := true
+	for _, x := range xs {
+		freshR = vn.And(freshR, c.fresh(x, nil))
+	}
+	withR := vn.And(vn.And(zzHead(P, types.ZZBra1, types.ZZBra2), cover), freshR)
 	freshL := true
 	for _, x := range xs {
 		freshL = vn.And(freshL, c.fresh(x, []zzN{w}))
